@@ -62,6 +62,14 @@ macro_rules! from_bytes_shape {
             rb.reverse();
             let be = BigUint::from_bytes_be(&rb);
             kani::assert(vc::is_canonical(&be) && vc::eq_window(vc::digits(&be), &e), "VERIF from_bytes_be value");
+            // BigInt::from_bytes_*: the magnitude with the requested sign; NoSign (or a zero magnitude) means zero
+            let zero = vc::ref_is_zero(&e);
+            let im = BigInt::from_bytes_le(Sign::Minus, &b);
+            kani::assert(int_canonical(&im) && vc::eq_window(mag(&im), &e) && (is_neg(&im) == !zero), "VERIF BigInt::from_bytes_le(Minus)");
+            let ip = BigInt::from_bytes_be(Sign::Plus, &rb);
+            kani::assert(int_canonical(&ip) && vc::eq_window(mag(&ip), &e) && !is_neg(&ip), "VERIF BigInt::from_bytes_be(Plus)");
+            let iz = BigInt::from_bytes_be(Sign::NoSign, &rb);
+            kani::assert(int_canonical(&iz) && mag(&iz).is_empty(), "VERIF BigInt::from_bytes_be(NoSign) is not zero");
             kani::cover!($n == 0 || vc::digits(&le).len() < ($n + 7) / 8, "reach:padding_stripped");
         }
     };
@@ -187,6 +195,16 @@ macro_rules! from_u32_shape {
             kani::assert(int_canonical(&m) && vc::eq_window(mag(&m), &e) && (is_neg(&m) == !zero), "VERIF BigInt::from_slice(Minus)");
             let p = BigInt::new(Sign::Plus, s.to_vec());
             kani::assert(int_canonical(&p) && vc::eq_window(mag(&p), &e) && !is_neg(&p), "VERIF BigInt::new(Plus)");
+            // every constructor x every requested sign (NoSign always means zero, whatever the digits say)
+            let m2 = BigInt::new(Sign::Minus, s.to_vec());
+            kani::assert(int_canonical(&m2) && vc::eq_window(mag(&m2), &e) && (is_neg(&m2) == !zero), "VERIF BigInt::new(Minus)");
+            let p2 = BigInt::from_slice(Sign::Plus, &s);
+            kani::assert(int_canonical(&p2) && vc::eq_window(mag(&p2), &e) && !is_neg(&p2), "VERIF BigInt::from_slice(Plus)");
+            let z2 = BigInt::new(Sign::NoSign, s.to_vec());
+            kani::assert(int_canonical(&z2) && mag(&z2).is_empty(), "VERIF BigInt::new(NoSign) is not zero");
+            let mut q2 = mkint(false, &[1, 2, 3]);
+            q2.assign_from_slice(Sign::Minus, &s);
+            kani::assert(int_canonical(&q2) && vc::eq_window(mag(&q2), &e) && (is_neg(&q2) == !zero), "VERIF BigInt::assign_from_slice(Minus)");
             let z = BigInt::from_slice(Sign::NoSign, &s);
             kani::assert(int_canonical(&z) && mag(&z).is_empty(), "VERIF BigInt::from_slice(NoSign) is not zero");
             let mut q = mkint(true, &[1, 2, 3]);
